@@ -37,6 +37,7 @@ type scenario struct {
 	waiters           bool // AwaitRunning / AwaitTerminated (background ctx)
 	parkingListener   bool // second listener whose callbacks take time (park)
 	lateListener      bool // listener added at any moment (+ remover)
+	keepListener      bool // with lateListener: the late listener is never removed, so it must see every later transition
 	cancellableWaiter bool
 	big               bool
 }
@@ -248,13 +249,15 @@ func runSingle(t *testing.T, sc scenario, ch *sched.Chooser) (res sched.Result) 
 				sched.Yield("added")
 				sched.Obs("L2 added")
 			})
-			e.Go("l-remover", func() {
-				sched.YieldUntil("remove", func() bool { return added })
-				sched.Obs("L2 removing")
-				remove()
-				sched.Yield("removed")
-				sched.Obs("L2 removed")
-			})
+			if !sc.keepListener {
+				e.Go("l-remover", func() {
+					sched.YieldUntil("remove", func() bool { return added })
+					sched.Obs("L2 removing")
+					remove()
+					sched.Yield("removed")
+					sched.Obs("L2 removed")
+				})
+			}
 		}
 		status := e.Run()
 		// the cancellable-waiter canceller may be left parked forever (its window closed): that is not a hang
@@ -472,14 +475,36 @@ func runSingle(t *testing.T, sc scenario, ch *sched.Chooser) (res sched.Result) 
 					fail("late-listener", "late listener saw %v which is not a contiguous part of %v", l2, l0)
 				}
 				addedSeq, removingSeq, removedSeq := seqOf("L2 added"), seqOf("L2 removing"), seqOf("L2 removed")
-				mustSee := 0
-				for i := range l0 {
-					if addedSeq != 0 && before(addedSeq, seqSeq["L0"][i]) && (removingSeq == 0) {
-						mustSee++
+				// (what a listener that is being removed still sees is not promised: its goroutine stops at once;
+				// the obligation to see every later transition is checked in the never-removed variant below)
+				_ = removingSeq
+				if sc.keepListener && status == "done" && addedSeq != 0 {
+					// Never removed: L2 sees exactly the transitions made after its registration, i.e. a suffix of
+					// L0's sequence, at least as long as what provably came later: the transitions that follow the
+					// return of a service function which returned after "L2 added" was logged (the log entry
+					// is written after AddListener returned, so this under-approximates the obligation).
+					if len(l2) > 0 && fmt.Sprint(l0[len(l0)-len(l2):]) != fmt.Sprint(l2) {
+						fail("late-listener-suffix", "never-removed late listener saw %v which is not a suffix of %v", l2, l0)
 					}
-				}
-				if len(l2) < mustSee {
-					fail("late-listener-miss", "late listener saw %v but %d transitions happened after its registration (%v)", l2, mustSee, l0)
+					first := len(l0) // index in l0 of the first transition L2 is obliged to see
+					if _, x := hasPrefix("start-exit"); x != 0 && before(addedSeq, x) && len(l0) > 1 {
+						first = min(first, 1)
+					}
+					if _, x := hasPrefix("run-exit"); x != 0 && before(addedSeq, x) {
+						for i, tr := range l0 {
+							if i > 0 && l0[i-1] == "Running" {
+								first = min(first, i)
+							}
+							_ = tr
+						}
+					}
+					if _, x := hasPrefix("stop-exit"); x != 0 && before(addedSeq, x) && len(l0) > 0 &&
+						(strings.HasPrefix(l0[len(l0)-1], "Terminated(Stopping") || strings.HasPrefix(l0[len(l0)-1], "Failed(Stopping")) {
+						first = min(first, len(l0)-1)
+					}
+					if len(l2) < len(l0)-first {
+						fail("late-listener-miss", "late listener (never removed) was registered before a service function returned but saw only %v of the transitions %v that followed (all: %v)", l2, l0[first:], l0)
+					}
 				}
 				for _, s := range seqSeq["L2"] {
 					if removedSeq != 0 && before(removedSeq, s) {
@@ -525,6 +550,7 @@ func singleScenarios() []scenario {
 	for _, o := range [][3]int{{oNil, oBlock, oNil}, {oNil, oErr, oNil}, {oErr, oNil, oNil}, {oBlock, oBlock, oErr}} {
 		out = append(out, scenario{name: "slow-listener", start: o[0], run: o[1], stop: o[2], stopper: true, parkingListener: true})
 		out = append(out, scenario{name: "late-listener", start: o[0], run: o[1], stop: o[2], stopper: true, lateListener: true, big: true})
+		out = append(out, scenario{name: "late-listener-keep", start: o[0], run: o[1], stop: o[2], stopper: true, lateListener: true, keepListener: true})
 		out = append(out, scenario{name: "cancellable-waiter", start: o[0], run: o[1], stop: o[2], stopper: true, cancellableWaiter: true})
 	}
 	return out
